@@ -40,6 +40,42 @@ fn main() {
         "replay" => std::process::exit(replay_one(Path::new(&args[2]), true)),
         "replay-saved" => replay_saved(&args[2], Path::new(&args[3])),
         "helper" => vcore::helpers::helper_main(&args[2..]),
+        // vcheck bytede-audit <ID> <sub> <n> <seed>: random byte strings through the generic fuzz entry (domain audit)
+        "bytede-audit" => {
+            install_panic_hook();
+            let (prop, sub) = (&args[2], &args[3]);
+            let n: u64 = args[4].parse().unwrap();
+            let mut x: u64 = args[5].parse::<u64>().unwrap() | 1;
+            let mut tally: std::collections::BTreeMap<String, u64> = Default::default();
+            let mut shown = 0;
+            for _ in 0..n {
+                let mut next = || {
+                    x ^= x << 13;
+                    x ^= x >> 7;
+                    x ^= x << 17;
+                    x.wrapping_mul(0x2545_f491_4f6c_dd1d)
+                };
+                let len = (next() % 1500) as usize;
+                let style = next() % 4;
+                let bytes: Vec<u8> = (0..len).map(|_| { let v = next(); match style { 0 => v as u8, 1 => (v as u8) & 0x0f, 2 => if v & 3 == 0 { v as u8 } else { 0 }, _ => if v & 1 == 0 { 0xff } else { (v >> 8) as u8 } } }).collect();
+                let key = match props::fuzz_entry::generic_verdict(prop, sub, &bytes) {
+                    None => "undecodable".to_string(),
+                    Some((_, Verdict::Pass { nontrivial, .. })) => format!("pass(nontrivial={})", nontrivial.is_some()),
+                    Some((_, Verdict::DontCare(w))) => format!("dontcare:{w}"),
+                    Some((case, Verdict::Inconclusive(w))) => {
+                        if shown < 5 { shown += 1; eprintln!("INCONCLUSIVE {w}\n  case {}", case.to_string().chars().take(600).collect::<String>()); }
+                        format!("inconclusive:{}", w.chars().take(60).collect::<String>())
+                    }
+                    Some((case, Verdict::Violation { signature, detail })) => {
+                        if shown < 5 { shown += 1; eprintln!("VIOLATION {signature}: {}\n  case {}", detail.chars().take(400).collect::<String>(), case.to_string().chars().take(600).collect::<String>()); }
+                        format!("violation:{signature}")
+                    }
+                };
+                *tally.entry(key).or_default() += 1;
+            }
+            vcore::helpers::shutdown();
+            for (k, v) in tally { println!("{v:>8}  {k}"); }
+        }
         _ => {
             eprintln!("unknown subcommand");
             std::process::exit(3)
@@ -351,20 +387,57 @@ fn parent(prop: &str, tier: Tier) -> i32 {
                 let Some(path) = a.as_str() else { continue };
                 let Ok(bytes) = std::fs::read(path) else { continue };
                 let case = serde_json::json!({ "bytes": bytes });
-                match props::replay(prop, &sub, &case) {
-                    Verdict::Violation { signature, detail } => {
+                // judged in a child process under a wall-clock limit: an artifact may be a hang
+                let dir = verif_root().join("out").join("violations");
+                let _ = std::fs::create_dir_all(&dir);
+                let p = dir.join(format!("{prop}-{}-{:016x}.json", sub.replace(':', "-"), fingerprint(&bytes)));
+                let _ = std::fs::write(&p, serde_json::to_vec_pretty(&serde_json::json!({"property": prop, "sub": sub, "signature": "", "detail": format!("libFuzzer artifact {path}"), "case": case})).unwrap());
+                let mut child = match std::process::Command::new(std::env::current_exe().unwrap()).arg("replay").arg(&p).stdout(std::process::Stdio::piped()).stderr(std::process::Stdio::null()).spawn() {
+                    Ok(c) => c,
+                    Err(e) => {
+                        inconclusive.push(format!("cannot spawn the replay of fuzz artifact {path}: {e}"));
+                        continue;
+                    }
+                };
+                let t0 = Instant::now();
+                let status = loop {
+                    match child.try_wait() {
+                        Ok(Some(st)) => break Some(st),
+                        Ok(None) if t0.elapsed().as_secs() > 120 => {
+                            let _ = child.kill();
+                            let _ = child.wait();
+                            break None;
+                        }
+                        Ok(None) => std::thread::sleep(std::time::Duration::from_millis(20)),
+                        Err(_) => break None,
+                    }
+                };
+                let mut out = String::new();
+                if let Some(mut so) = child.stdout.take() {
+                    use std::io::Read;
+                    let _ = so.read_to_string(&mut out);
+                }
+                match status.and_then(|s| s.code()) {
+                    Some(1) => {
+                        let signature = out.lines().find_map(|l| l.strip_prefix("replay: VIOLATED signature=")).unwrap_or("unknown").to_string();
+                        let detail = out.lines().find_map(|l| l.trim().strip_prefix("detail: ")).unwrap_or("").to_string();
                         if let Some(k) = known.matches(prop, &signature) {
                             known_lines.insert(signature, k.what.clone());
+                            let _ = std::fs::remove_file(&p);
                         } else {
-                            let dir = verif_root().join("out").join("violations");
-                            let _ = std::fs::create_dir_all(&dir);
-                            let p = dir.join(format!("{prop}-{sub}-{:016x}.json", fingerprint(&bytes)));
                             let _ = std::fs::write(&p, serde_json::to_vec_pretty(&serde_json::json!({"property": prop, "sub": sub, "signature": signature, "detail": detail, "case": case})).unwrap());
                             eprintln!("violation [{sub}] {signature}: {detail}");
                             violations.push((signature, p.to_string_lossy().into_owned()));
                         }
                     }
-                    _ => inconclusive.push(format!("fuzz artifact {path} does not reproduce through the oracle")),
+                    None => {
+                        let _ = std::fs::remove_file(&p);
+                        inconclusive.push(format!("replay of fuzz artifact {path} exceeded 120 s (hang or slow unit; not a verdict)"));
+                    }
+                    _ => {
+                        let _ = std::fs::remove_file(&p);
+                        inconclusive.push(format!("fuzz artifact {path} does not reproduce through the oracle"));
+                    }
                 }
             }
         }
